@@ -580,6 +580,7 @@ def call_function(ex, fnobj, args, kwargs, st, fr, what=None, owner=None):
     nfr = Frame(mod, owner, q, node, rel, contract=None, depth=fr.depth + 1)
     nfr.root = getattr(fr, 'root', fr)
     outs = ex.exec_block(node.body, st, nfr)
+    ex.cur = fr
     res = []
     for k, v, s in outs:
         s.env = dict(saved_env) if s is not st else saved_env
@@ -646,7 +647,7 @@ def call_contract(ex, c, node, mod, fnobj, args, kwargs, st, fr):
     pre_env = SpecEnv(pre_st, dict(env))
     root = getattr(fr, 'root', fr)
     # call-site preconditions
-    for nm, text in c.requires:
+    for nm, text in c.requires + c.inv:
         goal = ex.spec.bool(text, SpecEnv(st, dict(env)))
         st.obls.append(('call:%s.%s' % (c.qualname, nm), list(st.pc), goal,
                         {'kind': 'call-pre', 'callee': c.qualname, 'line': getattr(ex, 'cur_line', 0)}))
@@ -657,7 +658,7 @@ def call_contract(ex, c, node, mod, fnobj, args, kwargs, st, fr):
     havoc(ex, c.modifies, env, s1, c)
     res = ex.fresh(c.result, 'ret.' + c.qualname, s1) if c.result not in (None, 'none') else NONE
     senv = SpecEnv(s1, dict(env), pre_env, res)
-    for nm, text in c.ensures:
+    for nm, text in c.ensures + c.inv:
         s1.assume(ex.spec.bool(text, senv))
     for ax in ex.spec.side:
         s1.assume(ax)
@@ -672,7 +673,7 @@ def call_contract(ex, c, node, mod, fnobj, args, kwargs, st, fr):
         e = VExc(ecls)
         s2.notes.append(('env' if c.assumed else 'call', c.qualname, 'raise', exname))
         senv = SpecEnv(s2, dict(env), pre_env, None, e)
-        for nm, text in posts:
+        for nm, text in posts + c.inv:
             s2.assume(ex.spec.bool(text, senv))
         outs.append(('exc', e, s2))
     return outs
